@@ -227,6 +227,9 @@ type VC struct {
 	iters       map[*ssa.Range]*iterState
 	defs        map[string]string
 	inlineCount int
+	replayBounds []string
+	wrap        bool // math sort with exact modular semantics for + - * and conversions
+	specArith   int
 	boxOrigin   map[string]*Val
 }
 
@@ -237,6 +240,10 @@ func newVC(e *Engine, fn *ssa.Function, c *Contract) *VC {
 	if c != nil {
 		x.mode = c.Mode
 		x.noOvf = c.NoOvf != ""
+		if c.Mode == "wrap" {
+			x.mode = "math"
+			x.wrap = true
+		}
 	}
 	return x
 }
@@ -308,4 +315,45 @@ func (x *VC) scriptFor(o *Oblig) string {
 		sb.WriteString("(assert " + sNot(o.Cond) + ")\n")
 	}
 	return sb.String()
+}
+
+// targets returns the functions a contract is to be verified on: the function itself, or —
+// for a contract declared on an interface method (`Iface.Method`) — the method of every
+// implementer in the loaded program (behavioural subtyping).
+func (e *Engine) targets(c *Contract) []*ssa.Function {
+	if f := e.fnIndex[c.Pkg+"::"+c.Name]; f != nil {
+		return []*ssa.Function{f}
+	}
+	if strings.HasPrefix(c.Name, "(") {
+		return nil
+	}
+	dot := strings.Index(c.Name, ".")
+	if dot < 0 {
+		return nil
+	}
+	pkg := e.pkgByPath(c.Pkg)
+	if pkg == nil {
+		return nil
+	}
+	o := pkg.Scope().Lookup(c.Name[:dot])
+	if o == nil {
+		return nil
+	}
+	it, ok := o.Type().Underlying().(*types.Interface)
+	if !ok {
+		return nil
+	}
+	_ = it
+	var out []*ssa.Function
+	for _, ct := range e.implementers(o.Type()) {
+		ms := e.prog.MethodSets.MethodSet(ct)
+		for i := 0; i < ms.Len(); i++ {
+			if ms.At(i).Obj().Name() == c.Name[dot+1:] {
+				if f := e.prog.MethodValue(ms.At(i)); f != nil && f.Blocks != nil {
+					out = append(out, f)
+				}
+			}
+		}
+	}
+	return out
 }
